@@ -33,6 +33,9 @@ MAP = {  # commit subject (after "fix: ") -> (properties, what failed, which che
  "strategies of unique nullable fields emit at most one null": (["C13"], "SeriesSchema/Column/Index strategies with nullable=True and unique=True drew several nulls ([nan, nan]), which the schema rejects as duplicates", "C13 SER/*/custom=None series_draws_satisfy_schema (replayed with hypothesis.find)"),
  "to_script keeps the unique flag of index components": (["C12"], "to_script dropped unique=True of Index / MultiIndex levels (the generated script's schema differs from the original)", "C12 */yaml roundtrip/script_index_flags, script_equal (concrete complement on a second, non-default witness of the path)"),
  "check_input with a named argument keeps *args unpacked": (["C17"], "check_input(schema, 'x') on f(x, *more) called as f(df, 1, 2) handed the body more == ((1, 2),)", "C17 name-pos-varargs decorator/other_arguments_unchanged"),
+ "dataframe strategies emit at most one null in unique nullable columns": (["C13"], "DataFrameSchema.strategy with a nullable=True, unique=True column drew several nulls in that column (the frame-level null mask ignored uniqueness)", "C13 DF/* frame_draws_satisfy_schema (replayed with hypothesis.find)"),
+ "every violated set of jointly unique columns is reported": (["C11", "C02"], "DataFrameSchema(unique=[[a],[b]]) stopped at the first violated set: with drop_invalid_rows the duplicates of the other sets survived; the lazy report missed them (pandas and polars)", "C11 frame_sets/rd=exclude_first/N=3 drop/no_invalid_row_survives (thorough tier; the behaviour was first described by a mutation sub-agent's notes)"),
+ "drop_invalid_rows drops every row failing a check that limits n_failure_cases": (["C11"], "Column(checks=Check.ge(lo, n_failure_cases=1)) under drop_invalid_rows dropped only the first failing row: the other invalid rows survived", "C11 frame_nfc/rd=all/N=2 drop/no_invalid_row_survives (the behaviour was first described by a mutation sub-agent's notes)"),
  "in_range strategy honours exclusive bounds for integer dtypes": (["C13"], "Check.in_range(0, 1, include_max=False) on an int column synthesised 1 (hypothesis ignores exclude_* for integers)", "C13 int/in_range draws_satisfy_checks (replayed with hypothesis.find)"),
 }
 
